@@ -291,3 +291,49 @@ pub fn idioms(_env: &Env, _rest: &[String]) -> i32 {
     println!("bad={bad}");
     0
 }
+
+/// dev-case FILE [load-at K] : run the ops of a replay case one by one and print, after each,
+/// the observations and a summary of the save (evaluation stack, call stack frames); with
+/// `load-at K` the story is replaced after K ops by a fresh one that loaded the save
+pub fn case_file(_env: &Env, rest: &[String]) -> i32 {
+    let text = std::fs::read_to_string(&rest[0]).unwrap();
+    let j: serde_json::Value = serde_json::from_str(&text).unwrap();
+    let case = if j.get("case").is_some() { j["case"].clone() } else { j };
+    let load_at: Option<usize> = rest.iter().position(|a| a == "load-at").and_then(|i| rest.get(i + 1)).and_then(|v| v.parse().ok());
+    let (json_text, meta) = crate::common::case_story(&case).unwrap();
+    let cfg = crate::common::cfg_from_json(&case["cfg"]);
+    let ops = crate::rt::ops_from_json(&case["ops"]);
+    let mut h = Host::new(&json_text, meta.clone(), &cfg).unwrap();
+    let summary = |h: &mut Host| {
+        match h.story.save_state() {
+            Ok(s) => {
+                let v: serde_json::Value = serde_json::from_str(&s).unwrap();
+                let flow = v["currentFlowName"].as_str().unwrap_or("DEFAULT_FLOW").to_string();
+                let threads = &v["flows"][&flow]["callstack"]["threads"];
+                let frames: Vec<String> = threads
+                    .as_array()
+                    .map(|t| t.iter().map(|th| th["callstack"].as_array().map(|c| c.iter().map(|e| format!("{}:{}.{}{}", e["type"], e["cPath"].as_str().unwrap_or("-"), e["idx"], if e["exp"].as_bool().unwrap_or(false) { "!" } else { "" })).collect::<Vec<_>>().join(" > ")).unwrap_or_default()).collect())
+                    .unwrap_or_default();
+                println!("      evalStack={} frames={:?} out={}", v["evalStack"], frames, v["flows"][&flow]["outputStream"]);
+            }
+            Err(e) => println!("      save failed: {e}"),
+        }
+    };
+    for (i, op) in ops.iter().enumerate() {
+        if load_at == Some(i) {
+            let s = h.story.save_state().unwrap();
+            let mut f = Host::new(&json_text, meta.clone(), &cfg).unwrap();
+            f.story.load_state(&s).unwrap();
+            h = f;
+            println!("   -- replaced by a fresh story that loaded the save");
+        }
+        let m = h.trace.len();
+        h.apply(op);
+        println!("{i}: {}", op.to_json());
+        for o in &h.trace[m..] {
+            println!("      {}", o.show());
+        }
+        summary(&mut h);
+    }
+    0
+}
